@@ -4,6 +4,7 @@ import SLE.Driver.Value
 import SLE.Driver.Types
 import SLE.Driver.JsonD
 import SLE.Driver.VMD
+import SLE.Driver.UnifyD
 /-! `sle_driver`: reads `family\tpayload\timpl_answer`, prints `model_answer\toracle_verdict`. -/
 open SLE.Driver
 
@@ -20,6 +21,8 @@ def handleLine (line : String) : String :=
       | "merge" => Types.handleMerge payload impl
       | "json" => JsonD.handle payload impl
       | "vm" => VMD.handle payload impl
+      | "vm2" => VMD.handle2 payload impl
+      | "unify" => UnifyD.handle payload impl
       | _ => ("unknown-family", "ok")
     m ++ "\t" ++ o
   | _ => "bad-line\tok"
